@@ -3,7 +3,7 @@
 (* The complete step function: the union of the call alphabets of the      *)
 (* modules of the specification.                                           *)
 (***************************************************************************)
-EXTENDS ArraySpec
+EXTENDS Printable
 
 Step(objs, opts, call) ==
   IF call.op \in CoreOps THEN CoreStep(objs, opts, call)
@@ -12,5 +12,6 @@ Step(objs, opts, call) ==
   ELSE IF call.op \in SerialOps THEN SerialStep(objs, opts, call)
   ELSE IF call.op \in DeriveOps THEN DeriveStep(objs, opts, call)
   ELSE IF call.op \in ArrayOps THEN ArrayStep(objs, opts, call)
+  ELSE IF call.op \in PrintOps THEN PrintStep(objs, opts, call)
   ELSE Unconstrained
 =============================================================================
